@@ -27,16 +27,17 @@ var chk *mc.Check
 
 // rcase is the replay record of every kind of case of this check.
 type rcase struct {
-	Kind   string     // transform | s2q | q2s | sample | nudge-direct | nudge-sample
-	Src    [8]float64 `json:",omitempty"` // transform: source quadrilateral x0,y0..x3,y3 (sample: grid side, "To")
-	Dst    [8]float64 `json:",omitempty"` // transform: destination quadrilateral (sample: image side, "From")
-	DimX   int        `json:",omitempty"`
-	DimY   int        `json:",omitempty"`
-	W      int        `json:",omitempty"` // image size
-	H      int        `json:",omitempty"`
-	Image  string     `json:",omitempty"` // hashA | hashB | checker | ring
-	Class  string     `json:",omitempty"` // transform class (sample) / free text
-	Points []float64  `json:",omitempty"` // nudge-direct: the points handed to checkAndNudgePoints
+	Kind       string     // transform | s2q | q2s | sample | nudge-direct | nudge-sample
+	Src        [8]float64 `json:",omitempty"` // transform: source quadrilateral x0,y0..x3,y3 (sample: grid side, "To")
+	Dst        [8]float64 `json:",omitempty"` // transform: destination quadrilateral (sample: image side, "From")
+	DimX       int        `json:",omitempty"`
+	DimY       int        `json:",omitempty"`
+	W          int        `json:",omitempty"` // image size
+	H          int        `json:",omitempty"`
+	Image      string     `json:",omitempty"` // hashA | hashB | checker | ring
+	Class      string     `json:",omitempty"` // transform class (sample) / free text
+	Points     []float64  `json:",omitempty"` // nudge-direct: the points handed to checkAndNudgePoints
+	PointsText []string   `json:",omitempty"` // the same points as text when one of them is not finite (JSON has no NaN / Inf); Points is empty then
 }
 
 func main() {
